@@ -109,6 +109,17 @@ def run(ctx):
                     ov_ok = any("**self._task_options_override" in src(a.value) for a in defs)
                 if not ov_ok:
                     missing.append("task_options_override(merged over self's)")
+                # the overrides handed to the clone must not depend on definition-time options (which are not hashed)
+                if ov is not None:
+                    tainted = _flows_from(fn, ov, "_task_options_base")
+                    r2.check(
+                        not tainted,
+                        f"{m.rel}:Task.{name}:override-independent-of-base",
+                        f"the call-time overrides passed to the clone in Task.{name}() are computed from self._task_options_base ({tainted}): the hashed overrides, and so the "
+                        "task hash, then depend on definition-time options, and restating a definition-time value no longer changes the hash",
+                        m.rel,
+                        c.lineno,
+                    )
                 r2.check(
                     not missing,
                     f"{m.rel}:Task.{name}:clone",
@@ -132,7 +143,9 @@ def run(ctx):
                     for t in assigned_targets(n):
                         if isinstance(t, ast.Attribute) and t.attr in hashed_attrs and isinstance(t.value, ast.Name):
                             recv = t.value.id
-                            if not _is_task_receiver(mod, fn, recv):
+                            ecls = mod.enclosing_class(n)
+                            self_task = recv == "self" and ecls is not None and any(cc is cls for _, cc in repo.mro(mod, ecls))
+                            if not (self_task or _is_task_receiver(mod, fn, recv)):
                                 continue
                             sites += 1
                             cfg = CFG(fn)
@@ -207,3 +220,57 @@ def _is_task_receiver(mod, fn, recv: str) -> bool:
             if "_tasks" in t or "task_registry" in t or "get_task_registry" in t:
                 return True
     return False
+
+
+def _flows_from(fn, expr, attr: str):
+    """Does self.<attr> flow (through local assignments, loops and mutations of locals) into `expr`? Returns a description or None."""
+    tainted: dict[str, str] = {}
+    changed = True
+    while changed:
+        changed = False
+        for n in ast.walk(fn):
+            srcs = []
+            tgt = []
+            if isinstance(n, ast.Assign):
+                srcs, tgt = [n.value], [t for t in n.targets]
+            elif isinstance(n, ast.AugAssign):
+                srcs, tgt = [n.value], [n.target]
+            elif isinstance(n, (ast.For, ast.comprehension)):
+                srcs, tgt = [n.iter], [n.target]
+            elif isinstance(n, ast.If):
+                # control dependence: names assigned/mutated under a test that reads the attribute
+                if _reads(n.test, attr, tainted):
+                    for b in n.body + n.orelse:
+                        for a in ast.walk(b):
+                            if isinstance(a, ast.Assign):
+                                tgt += a.targets
+                            elif isinstance(a, ast.Call) and isinstance(a.func, ast.Attribute) and a.func.attr in ("pop", "update", "append", "add", "remove", "clear", "setdefault") and isinstance(a.func.value, ast.Name):
+                                tgt.append(a.func.value)
+                            elif isinstance(a, ast.Delete):
+                                tgt += [t.value if isinstance(t, ast.Subscript) else t for t in a.targets]
+                    srcs = [n.test]
+            elif isinstance(n, (ast.DictComp, ast.ListComp, ast.SetComp, ast.GeneratorExp)):
+                continue
+            if not srcs:
+                continue
+            why = None
+            for sx in srcs:
+                w = _reads(sx, attr, tainted)
+                if w:
+                    why = w
+            if why:
+                for t in tgt:
+                    for nm in ast.walk(t):
+                        if isinstance(nm, ast.Name) and nm.id not in tainted:
+                            tainted[nm.id] = why
+                            changed = True
+    return _reads(expr, attr, tainted)
+
+
+def _reads(node, attr: str, tainted: dict):
+    for n in ast.walk(node):
+        if isinstance(n, ast.Attribute) and n.attr == attr:
+            return f"reads self.{attr}"
+        if isinstance(n, ast.Name) and n.id in tainted:
+            return f"via `{n.id}`, which {tainted[n.id]}"
+    return None
